@@ -173,6 +173,13 @@ impl Scenario for C11Threads {
             // after the module header where they are dropped: their effect depends on position,
             // and they are not definitions. Comment (in)sensitivity is C13 (not decided here).
             cfg.comments = false;
+            cfg.intra_shared_enumerals = true;
+            if w.chance(1, 3) {
+                // import-heavy sets: many values governed by named types of other modules
+                cfg.value_import_bias = true;
+                cfg.modules = (3, 5);
+                cfg.assigns = (3, 8);
+            }
             let set = gen::generate(&mut w, &cfg);
             if w.chance(1, 2) {
                 let sib = gen::sibling(&set, &mut w);
